@@ -140,6 +140,20 @@ def gen_cases(rng, tier, evt, selfconj):
                 stmts.append(["CDecay", "MyantiCopyOf"])
         if rng.random() < 0.2:
             stmts.append(["CDecay", "MyNoSource"])
+        if rng.random() < 0.2:
+            # only one of two conjugate states got an alias: the ChargeConj statement names a standard particle in one slot
+            base, basebar = rng.choice([("D0", "anti-D0"), ("B0", "anti-B0"), ("K+", "K-"), ("D*+", "D*-"), ("Lambda_c+", "anti-Lambda_c-"), ("anti-B_s0", "B_s0")])
+            h = f"MyHalf{len(stmts)}"
+            stmts.append(["Alias", h, base])
+            stmts.append(["ChargeConj", h, basebar] if rng.random() < 0.5 else ["ChargeConj", basebar, h])
+            stmts.append(["Decay", h, [{"bf": "0.5", "fs": [rng.choice([basebar, base, h]), rng.choice(["pi0", "K+", basebar, h])], "photos": False, "model": "PHSP", "params": None}]])
+            if rng.random() < 0.7:
+                stmts.append(["CDecay", basebar])
+        if rng.random() < 0.15:
+            # the same CDecay statement twice (two files carrying it handed to one parser, or a copy-and-paste duplicate)
+            cds = [st for st in stmts if st[0] == "CDecay"]
+            if cds:
+                stmts.append(list(rng.choice(cds)))
         rng.shuffle(stmts)
         cases.append({"stmts": stmts, "text": decgen.render(stmts), "include_cc": rng.random() < 0.75})
     return cases
